@@ -135,6 +135,98 @@ theorem C11_sanitize_complete_partial (U : Uni) (names values : List Str) (res :
   obtain ⟨q, hq, hqp⟩ := List.mem_map.mp this
   rw [← hqp]; exact h2 q hq
 
+theorem itoa_inj (a b : Nat) (h : itoa a = itoa b) : a = b := by
+  unfold itoa at h
+  have hinj : ∀ l₁ l₂ : List Char, l₁.map Char.toNat = l₂.map Char.toNat → l₁ = l₂ := by
+    intro l₁
+    induction l₁ with
+    | nil => intro l₂ h; cases l₂ <;> simp_all
+    | cons x t ih =>
+      intro l₂ h
+      cases l₂ with
+      | nil => simp at h
+      | cons y u =>
+        simp only [List.map_cons, List.cons.injEq] at h
+        have hxy : x = y := by
+          apply Char.ext
+          apply UInt32.toNat_inj.mp
+          exact h.1
+        rw [hxy, ih u h.2]
+  have h1 : (toString a).toList = (toString b).toList := hinj _ _ h
+  have h2 : Nat.toDigits 10 a = Nat.toDigits 10 b := by
+    have ha : (toString a) = String.ofList (Nat.toDigits 10 a) := Nat.repr_eq_ofList_toDigits
+    have hb : (toString b) = String.ofList (Nat.toDigits 10 b) := Nat.repr_eq_ofList_toDigits
+    rw [ha, hb] at h1
+    simpa using h1
+  have := congrArg (fun l => Nat.ofDigitChars 10 l 0) h2
+  simpa [Nat.ofDigitChars_ten_toDigits] using this
+
+theorem freeName_none (taken : List Str) (base : Str) (fuel k : Nat) (h : freeName taken base fuel k = none) :
+    ∀ i, i < fuel → base ++ itoa (k + i) ∈ taken := by
+  induction fuel generalizing k with
+  | zero => intro i hi; omega
+  | succ fuel ih =>
+    simp only [freeName] at h
+    split at h
+    · rename_i hc
+      intro i hi
+      cases i with
+      | zero => simpa using hc
+      | succ j =>
+        have := ih (k + 1) h j (by omega)
+        have e : k + 1 + j = k + (j + 1) := by omega
+        rw [e] at this; exact this
+    · cases h
+
+theorem freeName_some (taken : List Str) (base : Str) (k : Nat) :
+    ∃ r, freeName taken base (taken.length + 1) k = some r := by
+  cases h : freeName taken base (taken.length + 1) k with
+  | some r => exact ⟨r, rfl⟩
+  | none =>
+    exfalso
+    have hall := freeName_none taken base _ k h
+    let cands := (List.range (taken.length + 1)).map (fun i => base ++ itoa (k + i))
+    have hsub : cands ⊆ taken := by
+      intro x hx
+      simp only [cands, List.mem_map, List.mem_range] at hx
+      obtain ⟨i, hi, rfl⟩ := hx
+      exact hall i hi
+    have hnd : cands.Nodup := by
+      simp only [cands, List.Nodup, List.pairwise_map]
+      apply List.Pairwise.imp _ (List.pairwise_lt_range (n := taken.length + 1))
+      intro i j hij heq
+      have := itoa_inj _ _ (List.append_cancel_left heq)
+      omega
+    have := hnd.length_le_of_subset hsub
+    simp only [cands, List.length_map, List.length_range] at this
+    omega
+
+theorem pickName_some (taken : List Str) (cnt : List (Str × Nat)) (s : Str) : ∃ r, pickName taken cnt s = some r := by
+  unfold pickName
+  split
+  · obtain ⟨r, hr⟩ := freeName_some taken s (firstCand cnt s).2
+    rw [hr]; exact ⟨_, rfl⟩
+  · exact ⟨_, rfl⟩
+
+theorem stage2_some (san : Str → Str) (ps out : List (Str × Str)) (cnt : List (Str × Nat)) :
+    ∃ res, stage2 san ps out cnt = some res := by
+  induction ps generalizing out cnt with
+  | nil => exact ⟨_, rfl⟩
+  | cons p rest ih =>
+    obtain ⟨n, v⟩ := p
+    obtain ⟨⟨name, cnt'⟩, hr⟩ := pickName_some (out.map (·.1)) cnt (san n)
+    simp only [stage2, hr]
+    exact ih _ _
+
+/-- `SanitizeEnumNames` (full statement): for every list of values and variable names the function yields
+pairwise distinct constant names for exactly the distinct values of the list, each once — no value is dropped,
+merged or invented. -/
+theorem C11_sanitize_complete (U : Uni) (names values : List Str) :
+    ∃ res, sanitizeEnumNames U names values = some res ∧
+      (res.map (·.1)).Nodup ∧ (res.map (·.2)).Nodup ∧ (∀ v ∈ values, v ∈ res.map (·.2)) ∧ (∀ p ∈ res, p.2 ∈ values) := by
+  obtain ⟨res, h⟩ := stage2_some (sanitizeName U) (stage1 names values) [] []
+  exact ⟨res, h, C11_sanitize_complete_partial U names values res h⟩
+
 /-! ### The literal -/
 
 theorem unhexL_lowerHex (n : Nat) (h : n < 16) : unhexL (lowerHex n) = some n := by
